@@ -30,6 +30,7 @@ def expr_from_json(j):
     if "op" in j:
         e = expr.Op(j["op"], [expr_from_json(a) for a in j["args"]], j.get("ia", []))
         if j.get("int_index"): e.int_index = True
+        if j.get("impl_modes") is not None: e.impl_modes = list(j["impl_modes"])
         return e
     raise ValueError("unknown expression node %r" % (list(j)[:3],))
 
